@@ -239,6 +239,25 @@ fn gen_bit_iters(rng: &mut Rng, tier: Tier, cases: &mut Vec<Case>) {
         }
         cases.push(c);
     }
+    // signed instantiations: the mask is given by its two's-complement pattern; i8 over all 256 masks (the 128
+    // negative ones included), the all-ones masks -1i8 / -1i16, u16 for completeness
+    for base in (0..256u64).step_by(8) {
+        let mut c = Case::new("subsets-i8-all");
+        for s in base..base + 8 {
+            c.op(format!("ssi 8 {s}"));
+        }
+        cases.push(c);
+    }
+    let mut c = Case::new("subsets-signed-fixed");
+    c.op("ssi 8 129"); // 0x81 as i8
+    c.op("ssi 8 255"); // -1i8
+    c.op("ssi 16 65535"); // -1i16: all 65536 subsets
+    c.op("ssi 16 32768"); // i16::MIN
+    c.op("ssi 32 2147483648"); // i32::MIN
+    c.op("ssi 64 9223372036854775808"); // i64::MIN
+    c.op("ssi 32 2147483733"); // sign bit + 0x55
+    c.op("ss 16 65535");
+    cases.push(c);
     let n = match tier {
         Tier::Quick => 200,
         Tier::Thorough => 4000,
@@ -246,7 +265,7 @@ fn gen_bit_iters(rng: &mut Rng, tier: Tier, cases: &mut Vec<Case>) {
     for _ in 0..n {
         let mut c = Case::new("subsets-random");
         for _ in 0..3 {
-            let bits = if rng.chance(1, 2) { 32 } else { 64 };
+            let bits = *rng.pick(&[16u64, 32, 64]);
             let pc = rng.below(11);
             let mut set = 0u64;
             for _ in 0..pc {
@@ -256,6 +275,23 @@ fn gen_bit_iters(rng: &mut Rng, tier: Tier, cases: &mut Vec<Case>) {
                 set |= 1 << (bits - 1);
             }
             c.op(format!("ss {bits} {set}"));
+        }
+        cases.push(c);
+    }
+    for _ in 0..n {
+        let mut c = Case::new("subsets-signed-random");
+        for _ in 0..3 {
+            let bits = *rng.pick(&[16u64, 32, 64]);
+            // sign bit (mostly) plus a few other bits, biased to low ones
+            let pc = rng.below(10);
+            let mut set = 0u64;
+            for _ in 0..pc {
+                set |= 1 << if rng.chance(1, 2) { rng.below(8) } else { rng.below(bits) };
+            }
+            if rng.chance(4, 5) {
+                set |= 1 << (bits - 1);
+            }
+            c.op(format!("ssi {bits} {set}"));
         }
         cases.push(c);
     }
@@ -667,10 +703,21 @@ fn execute(c: &Case, obs: &mut Vec<String>) {
             "ss" => {
                 let items: Vec<u64> = match n(1) {
                     8 => BitsetSubsetIterator::<u8>::from_bitset(n(2) as u8).map(|v| v as u64).collect(),
+                    16 => BitsetSubsetIterator::<u16>::from_bitset(n(2) as u16).map(|v| v as u64).collect(),
                     32 => BitsetSubsetIterator::<u32>::from_bitset(n(2) as u32).map(|v| v as u64).collect(),
                     _ => BitsetSubsetIterator::<u64>::from_bitset(n(2)).collect(),
                 };
                 obs.push(format!("D ss {} {}", items.len(), comma(&items)));
+            }
+            "ssi" => {
+                // signed T: the mask is the two's-complement pattern reinterpreted; items are the signed values
+                let items: Vec<i64> = match n(1) {
+                    8 => BitsetSubsetIterator::<i8>::from_bitset(n(2) as u8 as i8).map(|v| v as i64).collect(),
+                    16 => BitsetSubsetIterator::<i16>::from_bitset(n(2) as u16 as i16).map(|v| v as i64).collect(),
+                    32 => BitsetSubsetIterator::<i32>::from_bitset(n(2) as u32 as i32).map(|v| v as i64).collect(),
+                    _ => BitsetSubsetIterator::<i64>::from_bitset(n(2) as i64).collect(),
+                };
+                obs.push(format!("D ssi {} {}", items.len(), comma(&items)));
             }
             "on" => {
                 let items: Vec<u32> = OneIterator::from(n(1) as u32).collect();
